@@ -9,6 +9,7 @@ import Gama.Model.Graph
 import Gama.Model.Connected
 import Gama.Model.RCM
 import Gama.Model.Envelope
+import Gama.Model.BlockDiagonal
 open Gama Gama.Proto
 
 structure Sess (K : Type) where
@@ -17,6 +18,7 @@ structure Sess (K : Type) where
   o : Option SOrdering := none
   E : Option (Env K) := none      -- current envelope (before / after cholDec)
   Z : Option (Env K) := none      -- inverse
+  bd : Option (Cov.BlockDiag K) := none   -- BlockDiagonal (sbdiagonal.h)
 
 def nats (l : List Nat) : String := " ".intercalate (l.map toString)
 
@@ -47,6 +49,11 @@ def dumpElements (E : Env K) : String :=
     | none => "null"
   "elements " ++ " ".intercalate cells
 
+/-- `blocks ncnt size | dim… | width… | begin(1..blocks+1) offsets | nonz[0..ncnt)` -/
+def dumpBd (bd : Cov.BlockDiag K) : String :=
+  let ix := List.range' 1 bd.blocks
+  s!"bd {bd.blocks} {bd.ncnt} {bd.size} dim {nats (ix.map bd.dimOf)} width {nats (ix.map bd.widthOf)} begin {nats ((List.range' 1 (bd.blocks + 1)).map bd.beginOf)} nonz {renderAll (bd.nonz.extract 0 bd.ncnt).toList}"
+
 def vecArg (ts : List String) : Option (Array K) := (parseAll ts).map List.toArray
 
 /-- `exactTol = true` (the `Rat` driver): `cholDec()` without argument is run with the exact value
@@ -59,6 +66,33 @@ def step (exactTol : Bool) (s : Sess K) (line : String) : Sess K × String :=
     | some E =>
       let E := if exactTol then E.cholDec (1 / Scalar.ofNat (2 ^ 26)) else E.cholDec 0
       ({ s with E := some E }, dumpEnv "chol" E)
+    | none => (s, "bad-op")
+  | ["bdnew", b, f] =>
+    match b.toNat?, f.toNat? with
+    | some b, some f => ({ s with bd := some (Cov.BlockDiag.init 0 b f) }, "ok")
+    | _, _ => (s, "bad-op")
+  | "bdadd" :: d :: w :: es =>
+    match s.bd, d.toNat?, w.toNat?, (vecArg es : Option (Array K)) with
+    | some bd, some d, some w, some mem =>
+      if bd.canAddBlock d w mem then ({ s with bd := some (bd.addBlock 0 d w mem) }, "ok") else (s, "refused")
+    | _, _, _, _ => (s, "bad-op")
+  | ["bddump"] =>
+    match s.bd with
+    | some bd => (s, dumpBd bd)
+    | none => (s, "bad-op")
+  | ["bdreplicate"] =>
+    match s.bd with
+    | some bd => ({ s with bd := some (bd.replicate 0) }, "ok")
+    | none => (s, "bad-op")
+  | ["bdchol", tol] =>
+    match s.bd, (if tol = "default" then some (Cov.bdTol : K) else (Wire.parse tol : Option K)) with
+    | some bd, some tol => let r := bd.cholDec tol; ({ s with bd := some r.2 }, s!"int {r.1}")
+    | _, _ => (s, "bad-op")
+  | ["bdupper"] =>
+    match s.bd with
+    | some bd =>
+      let t := bd.upperTable
+      (s, s!"upper {bd.size} rows {nats ((List.range' 1 bd.size).flatMap fun i => [t.getD i 0, t.getD (i + 1) 0])}")
     | none => (s, "bad-op")
   | ["new", f, r, c] =>
     match f.toNat?, r.toNat?, c.toNat? with
@@ -174,7 +208,22 @@ def step (exactTol : Bool) (s : Sess K) (line : String) : Sess K × String :=
   | _ => (s, "bad-op")
 end
 
+/-- integer square root (Newton), exact on perfect squares -/
+def isqrt (n : Nat) : Nat :=
+  let rec go (fuel x : Nat) : Nat :=
+    match fuel with
+    | 0 => x
+    | fuel + 1 => let y := (x + n / x) / 2; if y < x then go fuel y else x
+  if n < 2 then n else go 200 n
+
+/-- `Scalar Rat` with a square root that is EXACT on squares of rationals (`BlockDiagonal::cholDec`
+    is run at `Rat` only on blocks `C = UᵀU` with rational `U`, where every pivot is such a square;
+    on any other argument the value is a floor approximation and the oracle notices) -/
+@[reducible] def ratSqrtScalar : Scalar Rat :=
+  { (inferInstance : Scalar Rat) with
+    sqrt := fun x => if x ≤ 0 then 0 else mkRat (isqrt x.num.toNat) (isqrt x.den) }
+
 def main (args : List String) : IO Unit :=
   match args with
-  | ["rat"] => loop (step (K := Rat) true) {}
+  | ["rat"] => loop (@step Rat ratSqrtScalar _ true) {}
   | _ => loop (step (K := Float) false) {}
